@@ -59,4 +59,10 @@ __CPROVER_requires(__CPROVER_is_fresh(a, sizeof(*a)) && __CPROVER_is_fresh(g_loc
 __CPROVER_assigns(*g_local)
 __CPROVER_ensures((unsigned long)*g_local == (unsigned long)__CPROVER_old(*g_local) + (unsigned long)value)
 ;
+/* operator<<(v): exactly one count() of the operand converted to the sum type; chaining returns the adder itself */
+Adder_t *Adder_op_shl__int(Adder_t *a, int *value)
+__CPROVER_requires(__CPROVER_is_fresh(a, sizeof(*a)) && __CPROVER_is_fresh(g_local, sizeof(long)) && __CPROVER_is_fresh(value, sizeof(int)))
+__CPROVER_assigns(*g_local)
+__CPROVER_ensures((unsigned long)*g_local == (unsigned long)__CPROVER_old(*g_local) + (unsigned long)(long)*value && __CPROVER_return_value == a)
+;
 #endif
